@@ -227,6 +227,6 @@ theorem C04_pipeline_caches (nw : Network) (hn : NetHyp nw) (o : Solve.Oracle)
 theorem C11_candidates_caches (nw : Network) (hn : NetHyp nw) {limit threshold : Option Nat} {s : Schedule}
     {last : SwapInfo} {cands : List Swaps.Candidate} (hinv : InvAll nw s)
     (h : Swaps.neighborsOf nw limit threshold s last = .ok cands) : ∀ c ∈ cands, InvAll nw c.sched :=
-  C11A.neighbors_invF (stepInv_all hn) hinv h
+  C11A.neighbors_invF (stepInv_all hn).toStepInv0 hinv h
 
 end RSSched.C09A
